@@ -330,6 +330,92 @@ def r4_capacity(r, facts):
     r.floor(1)
 
 
+def r6_edit_effect(r, facts):
+    """the functional half of "behaves as a byte vector": each edit stores the length its contract names, and no path on
+    which the buffer holds a slot and the edit applies leaves the length as it was.
+      truncate(len)            -> len            (unless len > current length)
+      clear()                  -> 0
+      set_len(new_len)         -> new_len
+      extend_from_slice(other) -> current length + other.len()   (on the path that returns Ok)
+      remove(range)            -> current length - (end - start)
+    """
+    ws = c08.owned_writers(facts)
+    per = {}
+    for f, loc, kind, e in ws:
+        if kind != 'store':
+            continue
+        for a in (e[1] if (e and e[0] == 'phi') else [e]):
+            if a and a[0] == 'agg' and a[1].endswith('Option::Some') and a[3] and a[3][0][0] == 'call' and a[3][0][1] == c08.CHANGE_SIZE:
+                per.setdefault(f.path, []).append((f, loc, strip(a[3][0][2][1])))
+
+    def arg_n(i):
+        return lambda e: strip(e)[0] == 'arg' and strip(e)[1] == i
+    other_len = lambda e: strip(e)[0] == 'call' and strip(e)[1].endswith('::len') and strip(e)[2] and strip(strip(e)[2][0])[0] == 'arg' and strip(strip(e)[2][0])[1] == 2
+    cur_len = lambda e: owned_len(e) or is_orig_len(e)
+
+    def is_sum(e):
+        e = strip(e)
+        return e[0] == 'bin' and e[1].startswith('Add') and ((cur_len(e[2]) and other_len(e[3])) or (cur_len(e[3]) and other_len(e[2])))
+    want = {
+        'truncate': ('len', arg_n(2)),
+        'clear': ('0', lambda e: strip(e)[0] == 'const' and strip(e)[1] == 0),
+        'set_len': ('new_len', arg_n(2)),
+        'extend_from_slice': ('len() + other.len()', is_sum),
+        'remove': ('len() - (end - start)', is_new_len_remove),
+    }
+    n = 0
+    for meth, (txt, pred) in want.items():
+        path = RB + '::' + meth
+        f = facts.fn_opt(path)
+        if not r.require(f is not None, 'effect:%s' % meth, 'ReadBuf::%s not found' % meth):
+            continue
+        n += 1
+        eb = ExprBuilder(f, multi='leaf')
+        sts = per.get(path, [])
+        good = []
+        for f_, loc, nl in sts:
+            nl2 = strip(eb.rvalue(f.at(loc)['rv']))
+            cs = [x for x in subexprs(nl2) if x[0] == 'call' and x[1] == c08.CHANGE_SIZE]
+            v = cs[0][2][1] if cs else nl
+            ok = pred(v) or pred(nl)
+            r.require(ok, 'effect:%s/value' % meth, 'ReadBuf::%s stores the length %s, its contract says %s' % (meth, str(v)[:120], txt), f.where(loc))
+            if ok:
+                good.append(loc)
+        r.inst('ReadBuf::%s stores %s at %d site(s)' % (meth, txt, len(good)), f.where())
+        if not r.require(bool(good), 'effect:%s/store' % meth, 'ReadBuf::%s never stores the new length (%s): the edit has no effect' % (meth, txt), f.where()):
+            continue
+        # from the `Some(ptr)` edge of the test of self.owned every normal return passes the store, except over the exits the
+        # contract names (truncate: len > current; extend: Err; remove: nothing — it panics on an invalid range)
+        starts = [Loc(v2['edge'][1], 0) for v2 in variant_edges(f, 'std::option::Option', 'Some')
+                  if not f.blocks[v2['edge'][0]]['cleanup']]
+        starts = [st for st in starts if any(f.dominates(st, g_) or st[0] == g_[0] for g_ in good)]
+        if not r.require(bool(starts), 'effect:%s/some-edge' % meth, 'the test of self.owned was not found (unrecognised form)', f.where()):
+            continue
+        allowed = []
+        if meth == 'truncate':
+            for b, blk in enumerate(f.blocks):
+                if blk['term']['k'] == 'switch' and not blk['cleanup']:
+                    e = eb.operand(blk['term']['discr'])
+                    vals = {int(v_): tg for v_, tg in blk['term']['targets']}
+                    if e[0] == 'bin' and e[1] in ('Gt', 'Lt', 'Ge', 'Le'):
+                        a_, b_ = strip(e[2]), strip(e[3])
+                        t_true, t_false = vals.get(1, blk['term']['otherwise']), vals.get(0)
+                        if e[1] == 'Gt' and arg_n(2)(a_) and cur_len(b_):
+                            allowed.append(Loc(t_true, 0))
+                        elif e[1] == 'Lt' and cur_len(a_) and arg_n(2)(b_):
+                            allowed.append(Loc(t_true, 0))
+                        elif e[1] == 'Le' and arg_n(2)(a_) and cur_len(b_) and t_false is not None:
+                            allowed.append(Loc(t_false, 0))
+                        elif e[1] == 'Ge' and cur_len(a_) and arg_n(2)(b_) and t_false is not None:
+                            allowed.append(Loc(t_false, 0))
+        elif meth == 'extend_from_slice':
+            allowed = [loc for loc, s_ in f.assigns() if s_['lhs']['l'] == 0 and s_['rv']['k'] == 'agg' and s_['rv'].get('variant') == 'Err']
+        hit = f.forward_paths_hit(starts, f.returns(), blockers=good + allowed)
+        r.require(hit is None, 'effect:%s/skipped' % meth, 'a path through ReadBuf::%s on which the buffer holds a slot returns normally without storing the new length (outside the exits its contract names): the edit silently does nothing' % meth, f.where(hit[0]) if hit else '')
+    r.floor(5)
+
+
+
 def check(ctx):
     ctx.run('C15.R1', 'edits rewrite only the length (writers of ReadBuf.owned; change_size keeps the pointer)', c08.r1_owner_pointer)
     ctx.run('C15.R2', 'bounded raw accesses: guarded copies and tail windows', r2_bounded_accesses)
@@ -337,3 +423,4 @@ def check(ctx):
     ctx.run('C15.R3', 'remove validates the range before mutating anything', r3_validate_first)
     ctx.run('C15.R5', 'release gives back the slot taken out of self.owned unconditionally, whatever length the edits left (C08.R2)', c08.r2_release_once)
     ctx.run('C15.R4', 'capacity() is the pool buffer size', r4_capacity)
+    ctx.run('C15.R6', 'each edit stores the length its contract names, on every path on which it applies', r6_edit_effect)
